@@ -71,36 +71,38 @@ type Task struct {
 
 // Sched is the cooperative scheduler.
 type Sched struct {
-	ch        Chooser
-	tasks     []*Task
-	cur       *Task
-	back      chan struct{}
-	Seq       uint64
-	MaxSteps  int
-	Policy    int // 0 uniform, 1 sticky, 2 priority with change points
-	Stick     int // for sticky: stay with probability Stick/100
-	prio      []int
-	changeAt  map[int]bool
-	steps     int
-	locs      map[uintptr]*location
-	Races     []Race
-	Deadlock  string
-	Overrun   bool
-	trace     uint64
-	TraceLog  []string
-	KeepLog   bool
-	now       time.Time
-	Accesses  int
-	Yields    int
-	lockIDs   map[*RWMutex]int
-	every     int
-	atoms     map[uintptr]*atomLoc
-	travel    int64
-	fnCount   int
-	BlockedRW int // probe: a writer had to wait behind readers / reader behind pending writer
-	timers    []*Timer
-	stopTimer bool
-	TimersRun int // probe: timer functions executed
+	ch           Chooser
+	tasks        []*Task
+	cur          *Task
+	back         chan struct{}
+	Seq          uint64
+	MaxSteps     int
+	Policy       int // 0 uniform, 1 sticky, 2 priority with change points
+	Stick        int // for sticky: stay with probability Stick/100
+	prio         []int
+	changeAt     map[int]bool
+	steps        int
+	locs         map[uintptr]*location
+	Races        []Race
+	Deadlock     string
+	Overrun      bool
+	trace        uint64
+	TraceLog     []string
+	KeepLog      bool
+	now          time.Time
+	Accesses     int
+	quietLocs    int
+	QuietDropped int // accesses to not-yet-known locations of late-shared types that went unrecorded (cap reached)
+	Yields       int
+	lockIDs      map[*RWMutex]int
+	every        int
+	atoms        map[uintptr]*atomLoc
+	travel       int64
+	fnCount      int
+	BlockedRW    int // probe: a writer had to wait behind readers / reader behind pending writer
+	timers       []*Timer
+	stopTimer    bool
+	TimersRun    int // probe: timer functions executed
 }
 
 // S is the installed scheduler (nil: shims are pass-through).
@@ -530,6 +532,24 @@ func (s *Sched) report(l *location, a, b *access) {
 	s.logf("RACE %s", r.Desc)
 }
 
+// quietCap bounds the number of locations one run records for types that are shared only because a package-level
+// variable of them is written (AccQ / AccStructQ): such types are touched millions of times in a long run and every
+// recorded location keeps its object alive. Past the cap, accesses to locations not seen before go unrecorded
+// (QuietDropped counts them); locations already known -- the package-level variables themselves are touched first --
+// are still checked.
+const quietCap = 1 << 20
+
+func (s *Sched) accessQ(addr uintptr, ref interface{}, name string, write bool, site string) {
+	if s.locs[addr] == nil {
+		if s.quietLocs >= quietCap {
+			s.QuietDropped++
+			return
+		}
+		s.quietLocs++
+	}
+	s.access(addr, ref, name, write, site)
+}
+
 func (s *Sched) access(addr uintptr, ref interface{}, name string, write bool, site string) {
 	t := s.cur
 	s.Accesses++
@@ -583,7 +603,7 @@ func AccQ(p interface{}, kind int, site string) {
 	if v.Kind() != reflect.Ptr || v.IsNil() {
 		return
 	}
-	s.access(v.Pointer(), p, "field@"+site, kind == Write, site)
+	s.accessQ(v.Pointer(), p, "field@"+site, kind == Write, site)
 }
 
 // AccObj records an access to the object behind a package-level variable of a foreign type
@@ -633,7 +653,11 @@ func accStruct(p interface{}, kind int, site string, quiet bool) {
 			if f.Kind() == reflect.Struct {
 				walk(f)
 			} else if f.CanAddr() {
-				s.access(f.UnsafeAddr(), p, "field@"+site, kind == Write, site)
+				if quiet {
+					s.accessQ(f.UnsafeAddr(), p, "field@"+site, kind == Write, site)
+				} else {
+					s.access(f.UnsafeAddr(), p, "field@"+site, kind == Write, site)
+				}
 			}
 		}
 	}
